@@ -10,7 +10,7 @@
    Guards: tile size < 2^24 (two24), file < 2^40 bytes (two40) - what an index entry can represent. *)
 From Coq Require Import ZArith List Bool.
 Import ListNotations.
-From MP Require Import Base Bytes Gen_compact Bundle Bundle_proofs.
+From MP Require Import Base Bytes Gen_compact Gen_compact_fmt Bundle Bundle_proofs.
 Local Open Scope Z_scope.
 
 (* ---- format v2 *)
